@@ -680,11 +680,39 @@ static void *cfail_thread(void *arg)
 	return NULL;
 }
 
+/* reduced snapshot of the failure path of thread_pool_create (the pool pointer is not visible from outside): program
+   counters only, in the model's vocabulary — the path is `destroy` on a pool with the j workers created so far */
+static void cf_pcs(char *buf, size_t cap)
+{
+	size_t n = 0;
+	int i, nt = vs_nthreads();
+	switch (vs_kind(0)) {
+	case VS_LOCK: n += (size_t)snprintf(buf + n, cap - n, "m=destroyLock"); break;
+	case VS_JOIN: n += (size_t)snprintf(buf + n, cap - n, "m=join:%d", vs_join_target(0) - 1); break;
+	case VS_EXITED: n += (size_t)snprintf(buf + n, cap - n, "m=finished"); break;
+	default: n += (size_t)snprintf(buf + n, cap - n, "m=?");
+	}
+	n += (size_t)snprintf(buf + n, cap - n, " w=");
+	for (i = 1; i < nt && n + 16 < cap; ++i) {
+		switch (vs_kind(i)) {
+		case VS_START: case VS_LOCK: n += (size_t)snprintf(buf + n, cap - n, "%sstart", i > 1 ? "," : ""); break;
+		case VS_COND: n += (size_t)snprintf(buf + n, cap - n, "%swaitQ%d", i > 1 ? "," : "", vs_signalled(i)); break;
+		case VS_EXITED: n += (size_t)snprintf(buf + n, cap - n, "%sexit", i > 1 ? "," : ""); break;
+		default: n += (size_t)snprintf(buf + n, cap - n, "%s?", i > 1 ? "," : "");
+		}
+	}
+	if (nt <= 1)
+		snprintf(buf + n, cap - n, "-");
+}
+
 static void run_cfail(char *line)
 {
 	char *save = NULL;
 	char *cmd = strtok_r(line, " \n", &save), *a = strtok_r(NULL, " \n", &save), *b = strtok_r(NULL, " \n", &save),
 	     *c = strtok_r(NULL, " \n", &save);
+	static char trace[1 << 16];
+	size_t tl = 0;
+	char pcs[512];
 	unsigned long long x;
 	int dl = 0, alive = 0, i, mtx = 0, with_spur, nspur = 0;
 	(void)cmd;
@@ -698,10 +726,14 @@ static void run_cfail(char *line)
 	g_n = cf_n;
 	x = strtoull(c, NULL, 10) * 2862933555777941757ULL + 3037000493ULL;
 	with_spur = strtoull(c, NULL, 10) % 4 == 1;
+	derived[0] = 0;
+	derived_len = 0;
+	n_derived = 0;
+	trace[0] = 0;
 	vs_reset();
 	vs_spawn(cfail_thread, NULL);
 	for (;;) {
-		int en[64], n = 0, nt = vs_nthreads(), live = 0;
+		int en[64], n = 0, nt = vs_nthreads(), live = 0, pick, kind, spur = 0;
 		for (i = 0; i < nt && i < 64; ++i) {
 			if (vs_kind(i) != VS_EXITED)
 				live = 1;
@@ -714,6 +746,7 @@ static void run_cfail(char *line)
 			dl = live;
 			break;
 		}
+		pick = -1;
 		x = x * 6364136223846793005ULL + 1442695040888963407ULL;
 		if (with_spur && (x >> 33) % 100 < 15) {
 			int cand[64], m = 0;
@@ -721,17 +754,35 @@ static void run_cfail(char *line)
 				if (vs_kind(i) == VS_COND && !vs_signalled(i))
 					cand[m++] = i;
 			x = x * 6364136223846793005ULL + 1442695040888963407ULL;
-			if (m > 0 && vs_step(cand[(x >> 33) % (unsigned)m], 1) == 0) {
-				++nspur;
-				continue;
+			if (m > 0) {
+				pick = cand[(x >> 33) % (unsigned)m];
+				spur = 1;
 			}
 		}
-		x = x * 6364136223846793005ULL + 1442695040888963407ULL;
-		vs_step(en[(x >> 33) % (unsigned)n], 0);
+		if (pick < 0) {
+			x = x * 6364136223846793005ULL + 1442695040888963407ULL;
+			pick = en[(x >> 33) % (unsigned)n];
+		}
+		kind = vs_kind(pick);
+		if (vs_step(pick, spur) != 0)
+			continue;
+		nspur += spur;
+		/* derived schedule of the model run `run 1 <j> - …` (j = workers created): the main thread arriving at the
+		   lock of the failure path is the call `x`; a worker's way from creation to its first lock is no step */
+		if (pick == 0)
+			emit(kind == VS_START ? "x" : "m", 0);
+		else if (kind == VS_START)
+			continue;
+		else
+			emit(spur ? "W%d" : "w%d", pick - 1);
+		cf_pcs(pcs, sizeof(pcs));
+		if (tl + strlen(pcs) + 4 < sizeof(trace))
+			tl += (size_t)snprintf(trace + tl, sizeof(trace) - tl, "%s%s", tl ? " | " : "", pcs);
 	}
 	for (i = 0; i < vs_nthreads(); ++i)
 		alive += vs_kind(i) != VS_EXITED;
-	printf("null=%d dl=%d alive=%d threads=%d spur=%d mtx=%d\n", cf_null, dl, alive, vs_nthreads(), nspur, mtx);
+	printf("null=%d dl=%d alive=%d threads=%d spur=%d mtx=%d || derived=%s pcs=%s\n", cf_null, dl, alive, vs_nthreads(), nspur, mtx,
+	       derived_len ? derived : "-", trace);
 	vs_kill_all();
 }
 
